@@ -4,6 +4,7 @@
   the block-level theorems of C06G72x / C07G72x meaningful, and the C03-style memory safety of the codec core proved
   rather than observed.  Property theorems only; helpers in SfProofs/G72x.lean, G72xInv.lean, G72xPack.lean.
 
+  * `g72x_tables_extracted`  the transcribed tables and the block geometry equal the arrays extracted by execution
   * `g72x_state_inv`         every state reachable from `private_init_state` by encoding any samples / decoding any codes:
                              544 ≤ yu ≤ 5120, 34816 ≤ yl ≤ 327680 (the C `long` never overflows), 0 ≤ ap ≤ 512, six b / dq
   * `g72x_step_size_range`   544 ≤ y ≤ 5120 in every reachable state
@@ -20,8 +21,26 @@
 -/
 import SfProofs.G72xInv
 import SfProofs.G72xPack
+import SfModel.Generated.G72xTables
 namespace Sf.C05G72x
 open Sf Sf.G72x Sf.G72x.Proofs
+
+/-- **tables by execution**: the model's transcribed tables (quantizer levels, log-domain reconstruction levels, scale
+    factor multipliers, speed-control weights of the four rates, `power2`) and block geometry are the static arrays of the
+    tree under test, as printed by a program that #includes its sources (lean/SfModel/Generated/G72xTables.lean is
+    regenerated on every run) -/
+theorem g72x_tables_extracted :
+    g721.qtab = Generated.G72x.g721_qtab ∧ g721.dqlntab = Generated.G72x.g721_dqlntab ∧
+    g721.witab = Generated.G72x.g721_witab ∧ g721.fitab = Generated.G72x.g721_fitab ∧
+    g723_16.qtab = Generated.G72x.g723_16_qtab ∧ g723_16.dqlntab = Generated.G72x.g723_16_dqlntab ∧
+    g723_16.witab = Generated.G72x.g723_16_witab ∧ g723_16.fitab = Generated.G72x.g723_16_fitab ∧
+    g723_24.qtab = Generated.G72x.g723_24_qtab ∧ g723_24.dqlntab = Generated.G72x.g723_24_dqlntab ∧
+    g723_24.witab = Generated.G72x.g723_24_witab ∧ g723_24.fitab = Generated.G72x.g723_24_fitab ∧
+    g723_40.qtab = Generated.G72x.g723_40_qtab ∧ g723_40.dqlntab = Generated.G72x.g723_40_dqlntab ∧
+    g723_40.witab = Generated.G72x.g723_40_witab ∧ g723_40.fitab = Generated.G72x.g723_40_fitab ∧
+    power2 = Generated.G72x.power2 ∧
+    [(blockSamples : Int), g723_16.blockBytes, g723_24.blockBytes, g721.blockBytes, g723_40.blockBytes] = Generated.G72x.geometry := by
+  decide
 
 /-- the states the C can be in: `private_init_state`, then any mix of encoder and decoder steps on any inputs -/
 inductive Reachable (r : Rate) : St → Prop
